@@ -96,3 +96,14 @@ Proof.
   split; [exact A|]. split; [exact B|]. split; [exact C|].
   split; vm_compute; auto.
 Qed.
+
+(* ---------- corner N = 0: the memory of an empty simulation (no particle array, every count 0) is well-formed *)
+Definition empty_sim_mem : key -> mval := apply_writes empty_mem (flat_map default_writes (live table)).
+Lemma empty_sim_corner : mem_wf particle_size table empty_sim_mem /\ absent_normal table (arrays_zero_length empty_sim_mem) /\
+  List.length (gen_view empty_sim_mem false) = 120%nat /\
+  flookup (gen_view empty_sim_mem false) (id_of_name table "particles") = None.
+Proof.
+  assert (A : forallb (mem_okb particle_size empty_sim_mem) (live table) = true) by (vm_compute; reflexivity).
+  assert (C : forallb (absent_okb (arrays_zero_length empty_sim_mem)) (live table) = true) by (vm_compute; reflexivity).
+  rewrite forallb_forall in A, C. split; [exact A|]. split; [exact C|]. split; vm_compute; reflexivity.
+Qed.
